@@ -31,7 +31,8 @@ type M struct {
 	Coq      string
 	Kind     string // alias flatten anon setslice subst strcast textu tagcopy reformat
 	OneToOne bool
-	Alias    []string // tag families of an alias mangler
+	Alias    []string     // tag families of an alias mangler
+	From     reflect.Type // the type a substitution mangler replaces
 }
 
 var Encoders = []cc.EncodeCasingFunc{cc.EncodeUpperCamelCase, cc.EncodeLowerCamelCase, cc.EncodeLowerSnakeCase,
@@ -77,7 +78,7 @@ func substM[F, T any]() M {
 	var f *F
 	var t *T
 	return M{Go: m, Coq: "(MSubst " + rty.TyTerm(reflect.TypeOf(f).Elem()) + " " + rty.TyTerm(reflect.TypeOf(t).Elem()) + ")",
-		Kind: "subst", OneToOne: true}
+		Kind: "subst", OneToOne: true, From: reflect.TypeOf(f).Elem()}
 }
 
 // SubstDur is the substitution used by the JSON and Cue decoders.
